@@ -490,6 +490,9 @@ def schedJointIC : Sched := { body := [⟨.perCoil, 2, 2⟩, ⟨.image, 2, 2⟩,
 def schedMultiDomain (standardization : Bool) : Sched := { pre := [⟨.perCoil, if standardization then 4 else 2, 2⟩] }
 def schedVarSplit (kspaceModel : Bool) : Sched :=
   { body := [⟨.image, 4, 2⟩] ++ (if kspaceModel then [⟨.perCoil, 5, 2⟩] else []) }
+/-- vSHARP (2-D and 3-D): the learned initialiser of the Lagrange multipliers on the SENSE image, then per ADMM step the
+denoiser on `cat([z, x, u / rho])` -/
+def schedVSharp : Sched := { pre := [⟨.image, 2, 2⟩], body := [⟨.image, 6, 2⟩] }
 /-- CIRIM: per cascade and time step the `depth` conv-RNN stacks and the final layer -/
 def schedCirim (depth hidden : Nat) : Sched :=
   { body := [⟨.image, 4, hidden⟩] ++ List.replicate (depth - 1) ⟨.image, hidden, hidden⟩ ++ [⟨.image, hidden, 2⟩] }
